@@ -743,8 +743,10 @@ class Frame(object):
         if bounding_f_range is None:
             bounding_min, bounding_max = 0, self.fchans
         else:
-            bounding_min = max(self.get_index(bounding_f_range[0]), 0)
-            bounding_max = min(self.get_index(bounding_f_range[1]), self.fchans)
+            # Clip both indices to the band; a negative index would otherwise
+            # wrap around to the other end of the frame
+            bounding_min = min(max(self.get_index(bounding_f_range[0]), 0), self.fchans)
+            bounding_max = min(max(self.get_index(bounding_f_range[1]), 0), self.fchans)
             
         restricted_fs = self.fs[bounding_min:bounding_max]
         if integrate_f_profile:
